@@ -2048,3 +2048,89 @@ def unit_table_prediction_replay():
         out["exc"] = f"{type(e).__name__}: {e}"
         out["ok"] = False
     return out
+
+
+def robust_correction_replay():
+    """REAL NonparametricElectionModel(robust=True) on synthetic elections with unequal baselines: the correction recovered
+    from the reported intervals of outstanding units that are not floored must be the LARGER of the population correction
+    (real _compute_population_correction) and np.quantile(scores, alpha*(1+1/n_cal)) -- and with robust=False the population
+    correction"""
+    from elexmodel.models.NonparametricElectionModel import NonparametricElectionModel
+
+    out = {"exc": None, "problems": []}
+    try:
+        for seed in range(6):
+            rng = np.random.default_rng(40 + seed)
+            n_rep, n_non = int(rng.integers(45, 90)), 8
+            def frame(n, rep):
+                last = np.exp(rng.normal(7, 1.2, n)).round() + 1
+                df = pd.DataFrame({"postal_code": "AA", "geographic_unit_fips": [f"{'r' if rep else 'n'}{i}" for i in range(n)], "reporting": int(rep), "unit_category": "expected", "last_election_results_turnout": last})
+                df["results_turnout"] = np.round(last * (1 + rng.normal(0.03, 0.15, n))) if rep else 0.0
+                df["residuals_turnout"] = (df.results_turnout - last) / last
+                return df
+            rep, non = frame(n_rep, True), frame(n_non, False)
+            for robust in (True, False):
+                for alpha in (0.7, 0.9):
+                    m = NonparametricElectionModel({"robust": robust})
+                    with warnings.catch_warnings():
+                        warnings.simplefilter("ignore")
+                        m.get_unit_predictions(rep.copy(), non.copy(), "turnout")
+                        pi = m.get_unit_prediction_intervals(rep.copy(), non.copy(), alpha, "turnout")
+                    conf = pi.conformalization
+                    scores = np.maximum(conf.lower_bounds, conf.upper_bounds)
+                    q = alpha * (1 + 1 / conf.shape[0])
+                    popc = float(m._compute_population_correction(conf, scores, q, "turnout"))
+                    plain = float(np.quantile(scores, q=q))
+                    want = max(plain, popc) if robust else popc
+                    # m.nonreporting_lower_bounds was (raw lower - correction) before un-normalising IN PLACE: recover the
+                    # correction from the width instead: (upper - lower)/last = raw width + 2c ; raw width from a second model
+                    m0 = NonparametricElectionModel({"robust": robust})
+                    with warnings.catch_warnings():
+                        warnings.simplefilter("ignore")
+                        m0.get_unit_predictions(rep.copy(), non.copy(), "turnout")
+                        raw = m0.get_unit_prediction_interval_bounds(rep.copy(), non.copy(), m0._compute_conf_frac(rep.shape[0], alpha), alpha, "turnout")
+                    last = non.last_election_results_turnout.to_numpy()
+                    lo_want = np.round(np.maximum((np.asarray(raw.lower) - want) * last + last, 0.0))
+                    up_want = np.round(np.maximum((np.asarray(raw.upper) + want) * last + last, 0.0))
+                    if np.max(np.abs(np.asarray(pi.lower, dtype=float) - lo_want)) > 1 or np.max(np.abs(np.asarray(pi.upper, dtype=float) - up_want)) > 1:
+                        out["problems"].append({"seed": seed, "robust": robust, "alpha": alpha, "population_correction": popc, "plain_quantile": plain, "expected_correction": want, "upper_reported": float(np.asarray(pi.upper, dtype=float)[0]), "upper_expected": float(up_want[0])})
+        out["problems"] = out["problems"][:4]
+        out["ok"] = not out["problems"]
+    except Exception as e:  # noqa
+        import traceback
+
+        out["exc"] = f"{type(e).__name__}: {e}"
+        out["trace"] = traceback.format_exc()[-500:]
+        out["ok"] = False
+    return out
+
+
+def duplicate_units_replay():
+    """REAL client: a feed (and baseline) in which one reporting unit id occurs twice must be rejected with
+    ModelClientException; the same election without the duplicate must complete"""
+    from elexmodel.client import ModelClientException
+
+    base = synthetic(40, seed=3)
+    cur = feed(base, [100] * 30 + [30] * 10)
+    out = {"exc": None, "problems": []}
+    try:
+        with warnings.catch_warnings():
+            warnings.simplefilter("ignore")
+            run_client(cur, base, estimands=("turnout",), pi_method="nonparametric", prediction_intervals=(0.9,), aggregates=("postal_code", "unit"))
+        # duplicate one reporting unit in both tables (a duplicated feed row alone is merged away by the join)
+        dup_id = cur.geographic_unit_fips.iloc[0]
+        cur2 = pd.concat([cur, cur[cur.geographic_unit_fips == dup_id]], ignore_index=True)
+        try:
+            with warnings.catch_warnings():
+                warnings.simplefilter("ignore")
+                run_client(cur2, base, estimands=("turnout",), pi_method="nonparametric", prediction_intervals=(0.9,), aggregates=("postal_code", "unit"))
+            out["problems"].append({"what": "a feed with a reporting unit id that occurs twice was accepted", "unit": str(dup_id)})
+        except ModelClientException as e:
+            out["rejected_with"] = str(e)[:120]
+        except Exception as e:  # noqa
+            out["problems"].append({"what": "rejected, but not with the client error", "exc": f"{type(e).__name__}: {e}"[:200]})
+        out["ok"] = not out["problems"]
+    except Exception as e:  # noqa
+        out["exc"] = f"{type(e).__name__}: {e}"
+        out["ok"] = False
+    return out
